@@ -10,6 +10,7 @@ package main
 import (
 	"fmt"
 	"go/types"
+	"sort"
 
 	"golang.org/x/tools/go/ssa"
 )
@@ -22,6 +23,25 @@ type docEntry struct {
 type docModel struct {
 	id      int
 	entries []docEntry
+}
+
+// docEq: two documents encode the same map (entries are kept sorted by name).
+func docEq(a, b *docModel) *Term {
+	if len(a.entries) != len(b.entries) {
+		return TFalse
+	}
+	c := TTrue
+	for i := range a.entries {
+		if a.entries[i].name != b.entries[i].name || len(a.entries[i].val) != len(b.entries[i].val) {
+			return TFalse
+		}
+		c = AndB(c, eqAll(a.entries[i].val, b.entries[i].val))
+	}
+	return c
+}
+
+func (d *docModel) sortEntries() {
+	sort.Slice(d.entries, func(i, j int) bool { return d.entries[i].name < d.entries[j].name })
 }
 
 type fileState struct {
@@ -112,6 +132,7 @@ func init() {
 				dm.entries = append(dm.entries, docEntry{name: name, val: bs})
 			}
 		}
+		dm.sortEntries()
 		name := ex.freshName("doc")
 		n := ex.freshVar("doclen", 64)
 		ex.assume(AndB(Uge(n, BV(64, 2)), Ule(n, BV(64, 4096))))
@@ -358,6 +379,7 @@ func init() {
 			}
 			dm.entries = append(dm.entries, docEntry{name: name, val: ex.readBytes(k, int(kn))})
 		}
+		dm.sortEntries()
 		dn := ex.freshName("doc")
 		n := ex.freshVar("doclen", 64)
 		ex.assume(AndB(Uge(n, BV(64, 2)), Ule(n, BV(64, 4096))))
